@@ -301,24 +301,25 @@ func (r *transport) handleCacheHit(
 	respNoCacheFieldsRaw, hasRespNoCache := ccResp.NoCache()
 	respNoCacheFieldsSeq, isRespNoCacheQualified := respNoCacheFieldsRaw.Value()
 
-	// RFC 8246: If response is fresh and immutable, always serve from cache unless request has no-cache
-	if !freshness.IsStale && ccResp.Immutable() && !ccReq.NoCache() {
-		return r.serveFromCache(
-			req,
-			urlKey,
-			stored,
-			freshness,
-			isRespNoCacheQualified,
-			respNoCacheFieldsSeq,
-		)
-	}
-
-	if (freshness.IsStale && ccResp.MustRevalidate()) ||
-		(hasRespNoCache && !isRespNoCacheQualified) { // Unqualified no-cache: must revalidate before serving from cache
+	// Validation demanded by the stored response (unqualified no-cache, or
+	// must-revalidate once it has expired) or by the request (no-cache, or a
+	// max-age the response has reached) is never overridden by max-stale,
+	// stale-while-revalidate, stale-if-error, immutable or only-if-cached
+	// (RFC 9111 §4.2.4, §5.2.1.1, §5.2.1.4, §5.2.2.2, §5.2.2.4).
+	mustValidate := (hasRespNoCache && !isRespNoCacheQualified) ||
+		((freshness.IsStale || freshness.Expired) && ccResp.MustRevalidate()) ||
+		ccReq.NoCache() || freshness.ReqMaxAgeExceeded
+	if mustValidate {
+		if ccReq.OnlyIfCached() {
+			// RFC 9111 §5.2.1.7: no usable stored response and no network.
+			return make504Response(req)
+		}
 		goto revalidate
 	}
 
-	if ccReq.OnlyIfCached() || (!freshness.IsStale && !ccReq.NoCache()) {
+	// Fresh (RFC 8246: immutable changes nothing here), or stale but explicitly
+	// accepted by the request (max-stale is folded into IsStale, only-if-cached).
+	if !freshness.IsStale || ccReq.OnlyIfCached() {
 		return r.serveFromCache(
 			req,
 			urlKey,
@@ -329,11 +330,19 @@ func (r *transport) handleCacheHit(
 		)
 	}
 
-	if swr, swrValid := ccResp.StaleWhileRevalidate(); freshness.IsStale && swrValid {
+	if swr, swrValid := ccResp.StaleWhileRevalidate(); swrValid {
 		age := freshness.Age.Value + r.clock.Since(freshness.Age.Timestamp)
 		staleFor := age - freshness.UsefulLife
 		if staleFor >= 0 && staleFor < swr {
-			return r.handleStaleWhileRevalidate(req, stored, urlKey, freshness, ccReq)
+			return r.handleStaleWhileRevalidate(
+				req,
+				stored,
+				urlKey,
+				freshness,
+				ccReq,
+				isRespNoCacheQualified,
+				respNoCacheFieldsSeq,
+			)
 		}
 	}
 
@@ -349,6 +358,7 @@ revalidate:
 		Refs:      refs,
 		RefIndex:  refIndex,
 		Freshness: freshness,
+		NoStale:   mustValidate,
 	}
 	return r.vrh.HandleValidationResponse(ctx, req, resp, err)
 }
@@ -368,7 +378,12 @@ func (r *transport) serveFromCache(
 		}
 	}
 	internal.SetAgeHeader(stored.Data, r.clock, freshness.Age)
-	internal.CacheStatusHit.ApplyTo(stored.Data.Header)
+	if freshness.Expired {
+		// Served although stale, as the request allows (max-stale, only-if-cached).
+		internal.CacheStatusStale.ApplyTo(stored.Data.Header)
+	} else {
+		internal.CacheStatusHit.ApplyTo(stored.Data.Header)
+	}
 	r.logger.LogCacheHit(req, urlKey, internal.MiscFunc(func() internal.Misc {
 		return internal.Misc{
 			Stored:    stored,
@@ -386,6 +401,8 @@ func (r *transport) handleStaleWhileRevalidate(
 	urlKey string,
 	freshness *internal.Freshness,
 	ccReq internal.CCRequestDirectives,
+	noCacheQualified bool,
+	noCacheFieldsSeq iter.Seq[string],
 ) (*http.Response, error) {
 	req2 := req.Clone(req.Context())
 	req2 = withConditionalHeaders(req2, stored.Data.Header)
@@ -396,6 +413,13 @@ func (r *transport) handleStaleWhileRevalidate(
 	// Open a discussion at github.com/bartventer/httpcache/issues if your use case requires
 	// guaranteed completion.
 	go r.backgroundRevalidate(req2, stored, urlKey, freshness, ccReq)
+	if noCacheQualified {
+		// Qualified no-cache: the named fields are not replayed without validation.
+		for field := range noCacheFieldsSeq {
+			stored.Data.Header.Del(field)
+		}
+	}
+	internal.SetAgeHeader(stored.Data, r.clock, freshness.Age)
 	internal.CacheStatusStale.ApplyTo(stored.Data.Header)
 	r.logger.LogCacheStaleRevalidate(req, urlKey, internal.MiscFunc(func() internal.Misc {
 		return internal.Misc{
